@@ -365,8 +365,8 @@ func main() {
 	}
 	if fl.Search {
 		r.budget *= 6
-		if r.budget > 16 { // thorough x search: bounded memory and time
-			r.budget = 16
+		if r.budget > 8 { // thorough x search: the generators keep the thorough budget (bounded memory and time), the fuzz targets run twice as long
+			r.budget = 8
 		}
 	}
 	registerAll()
